@@ -78,14 +78,14 @@ fn sources(prop: &str) -> Vec<Source> {
 
 fn budget(prop: &str, tier: &str) -> u64 {
     let quick = match prop {
-        "C04" | "C16" => 6000,
-        "C07" | "C13" | "C14" => 5000,
-        "C09" | "C17" | "C18" => 3000,
-        "C15" | "C19" => 2000,
-        _ => 4000,
+        "C04" | "C16" => 30_000,
+        "C07" | "C13" | "C14" => 24_000,
+        "C09" | "C17" | "C18" => 16_000,
+        "C15" | "C19" => 10_000,
+        _ => 20_000,
     };
     if tier == "thorough" {
-        quick * 100
+        quick * 40
     } else {
         quick
     }
@@ -494,7 +494,7 @@ fn cmd_check(args: &[String]) -> i32 {
         if let Some(idx) = first_diff {
             // C19 seeds are flavour-independent (see run_seed_c19), regenerate the case
             let (case, _) = gen_case(&prop, seed, idx, &known, true);
-            found = Some(Found { idx, case, viol: engine::Violation { prop: "C19", clause: "builds_behave_identically", step: 0, msg: "normalised event logs of the two builds differ".into() } });
+            found = Some(Found { idx, case, viol: engine::Violation { stop: true, prop: "C19", clause: "builds_behave_identically", step: 0, msg: "normalised event logs of the two builds differ".into() } });
         }
     }
 
